@@ -78,17 +78,7 @@ def prepPutBool (length : Int) : Int :=
   let length_v1 : Int := (Go.add64 length 1)
   length_v1
 
-/-- generated from real_decoder.go (*realDecoder).getCompactArrayLength -/
-def compactArrayLength (n : Int) (err : Int) (nilErr : Int) : Int × Int :=
-  let err_v1 : Int := err
-  let n_v1 : Int := n
-  if (err_v1 ≠ nilErr) then
-    (0, err_v1)
-  else
-    if (n_v1 = 0) then
-      (0, nilErr)
-    else
-      ((Go.sub64 n_v1 1), nilErr)
+-- fun compactArrayLength: NOT TRANSLATED: call rd.remaining() is not declared in vars
 
 /-- generated from real_decoder.go (*realDecoder).getArrayLength (fragment starting at `if tmp > rd.remaining()`) -/
 def arrayLengthGuard (tmp : Int) (rem : Int) (off : Int) (rawLen : Int) (maxU16 : Int) (eInsufficient : Int) (eInvalid : Int) (nilErr : Int) : Int × Int × Int :=
@@ -96,7 +86,7 @@ def arrayLengthGuard (tmp : Int) (rem : Int) (off : Int) (rawLen : Int) (maxU16 
     let off_v1 : Int := rawLen
     ((-1), eInsufficient, off_v1)
   else
-    if (tmp > (Go.mul64 2 maxU16)) then
+    if ((tmp > (Go.mul64 2 maxU16)) ∨ (tmp < (-1))) then
       ((-1), eInvalid, off)
     else
       (tmp, nilErr, off)
